@@ -23,11 +23,11 @@ type Expr struct {
 	Multi bool     // "except": the keys form one tuple index ![a, b]
 }
 
-func Lit(v Val) *Expr                  { return &Expr{Op: "lit", V: v} }
-func Var(n string) *Expr               { return &Expr{Op: "var", Names: []string{n}} }
-func Op(op string, a ...*Expr) *Expr   { return &Expr{Op: op, A: a} }
-func (e *Expr) String() string         { return e.TLA() }
-func paren(s string) string            { return "(" + s + ")" }
+func Lit(v Val) *Expr                { return &Expr{Op: "lit", V: v} }
+func Var(n string) *Expr             { return &Expr{Op: "var", Names: []string{n}} }
+func Op(op string, a ...*Expr) *Expr { return &Expr{Op: op, A: a} }
+func (e *Expr) String() string       { return e.TLA() }
+func paren(s string) string          { return "(" + s + ")" }
 func (e *Expr) args() []string {
 	out := make([]string, len(e.A))
 	for i, a := range e.A {
